@@ -46,6 +46,9 @@ def rdate(r):
 def rnumber(r):
     """Finite non-negative Decimal (any exponent: small fractions and exponent-form values included)."""
     k = r.random()
+    if k < 0.08:
+        # more significant digits than the default decimal context keeps (28): storing and reading a value involves no arithmetic
+        return D(f'{r.randint(10 ** 28, 10 ** r.randint(29, 40))}E-{r.randint(0, 30)}')     # (scaleb would round to the context)
     if k < 0.3:
         return D(r.randint(0, 10 ** r.randint(0, 12)))
     if k < 0.4:
@@ -55,7 +58,8 @@ def rnumber(r):
 
 def rsigned(r):
     v = rnumber(r)
-    return -v if r.random() < 0.3 and v != 0 else v
+    # (a negated value is evaluated with a unary minus, which rounds to the decimal context: long values stay positive)
+    return -v if r.random() < 0.3 and v != 0 and len(v.as_tuple().digits) <= 28 else v
 
 
 ACCOUNTS = ['Assets:New', 'Income:Ü:X', 'Expenses:A-1:B2', 'Liabilities:Z', 'Équity:Ö']
